@@ -374,6 +374,17 @@ class Engine:
                     isd = z3.Function('$isinst_' + d.__name__, I, B)(recv.t)
                     st.may_raise(z3.Or(recv.t == 0, z3.Not(isd)), 'AttributeError', '%s.%s' % (cls, attr))
                     return VFn('bound', recv=VRef(recv.t, d.__name__), qual='%s.%s.%s' % (d.__module__, d.__qualname__, attr), name=attr)
+                if not roots and base is not None:
+                    # inherited from a mixin outside the hierarchy (PythonMixin): the subclasses that have it, if they all
+                    # share one definition
+                    have = [k for k in classes.table().values() if issubclass(k, base) and _insp.isfunction(getattr(k, attr, None))]
+                    fns = {getattr(k, attr) for k in have}
+                    if len(fns) == 1:
+                        fn_ = fns.pop()
+                        tops = [k for k in have if not any(r is not k and issubclass(k, r) for r in have)]
+                        cond = z3.Or([z3.Function('$isinst_' + k.__name__, I, B)(recv.t) for k in tops])
+                        st.may_raise(z3.Or(recv.t == 0, z3.Not(cond)), 'AttributeError', '%s.%s' % (cls, attr))
+                        return VFn('bound', recv=recv, qual='%s.%s' % (fn_.__module__, fn_.__qualname__), name=attr)
             if fk is None:
                 raise OutOfSubset('attribute %s of %s has no declared kind' % (attr, cls))
             st.may_raise(recv.t == 0, 'AttributeError', 'None.%s' % attr)
